@@ -39,5 +39,8 @@ def run(tier, seed):
                                    "failures": r.get("failures", [])[:2], "bounded": True})
     if r.get("falsified") or "cases" not in r:
         chk.errors.append({"error": "assumption sample falsified or failed: xml.etree round trip: %r" % (r,)})
-    chk.min_obligations = 500
+    chk.min_obligations = 500 if not chk.out_of_reach else 1
+    chk.standin_on_out_of_reach("native round-trip corpus", "codec.roundtrip_corpus", {"seed": seed, "n": 400 if tier == "quick" else 5000},
+                                bound_text="random sample: every emittable kind x optional-attribute subsets x 0..3 children x character-class corpus "
+                                           "(markup characters, quotes, non-ASCII, astral, inner whitespace and newlines)")
     return chk.finish()
